@@ -15,6 +15,8 @@ HIST_SRC = ["histmon.c", "layoutmon.c", "refcodec.c", "dbh.c", "model.c", "vh.c"
 HARNESSES = {
     # name: (sources, wrap list)
     "histmon": (HIST_SRC, build.WRAP_IO),
+    "dbtool": (["dbtool.c", "dbh.c", "model.c", "vh.c", "iomon.c"], build.WRAP_IO),
+    "crashmon": (["crashmon.c", "refcodec.c", "dbh.c", "model.c", "vh.c", "iomon.c"], build.WRAP_IO),
 }
 
 
@@ -213,11 +215,13 @@ def c13(ctx):
     if ctx.replay:
         return do_replay(ctx)
     if ctx.quick:
-        jobs = hist_jobs(ctx, "c13", 64, 1000)
+        jobs = hist_jobs(ctx, "c13", 64, 1000) + crash_jobs(ctx, "c05", 8, 40, 0, 2, 6, first=500)
     else:
-        jobs = hist_jobs(ctx, "c13", 1000, 2500, per_proc=16)
+        jobs = hist_jobs(ctx, "c13", 1000, 2500, per_proc=16) + crash_jobs(ctx, "c05", 32, 150, 0, 2, 20, first=500)
     agg = Agg().add(runner.run_jobs(jobs))
     extras = hist_common_extras(agg)
+    extras.update(crash_images_recovered=agg.n("images"),
+                  orphan_checks_after_crash_recovery=agg.n("leak_checks_after_recovery"))
     extras.update(table_unlinks_observed=agg.n("c13_table_unlinks"),
                   unlinks_checked_against_live_iterators=agg.n("c13_unlinks_vs_live_iter"),
                   file_creations_checked_for_number_reuse=agg.n("c13_creates"),
@@ -264,3 +268,120 @@ def c14(ctx):
         floors=dict(deep_checks=(agg.n("c14_deep_checks"), 100), nontrivial=(agg.n("c14_nontrivial_checks"), 20),
                     straddles=(agg.n("c14_straddle_layouts"), 1), reopen_eq=(agg.n("c14_reopen_layout_equal"), 5)),
         assumptions=["harness/refcodec.c (written without lcdb headers) is a correct reader of the LevelDB table format"])
+
+
+# ---------------------------------------------------------------------------
+# crash explorer family: C02 C03 C04 C05 (+ C17 switch window, C13 orphans)
+
+HARNESS_FLAVOURS["crashmon"] = ("rel",)
+
+
+def crash_jobs(ctx, focus, ncases, batches, points_max, depth, nested_max, first=0, flavour="rel"):
+    jobs = []
+    for i in range(first, first + ncases):
+        d = os.path.join(ctx.scratch, "cr-%s-%d" % (focus, i))
+        jobs.append(hjob("crashmon", flavour,
+                         ["--seed", ctx.seed, "--case", i, "--focus", focus, "--batches", batches,
+                          "--points-max", points_max, "--depth", depth, "--nested-max", nested_max, "--dir", d],
+                         "%s/%d" % (focus, i), timeout=3000))
+    return jobs
+
+
+def crash_extras(agg):
+    kinds = ["max", "min", "dir-ahead", "data-ahead", "torn", "random"]
+    return dict(
+        workloads=agg.n("workloads"), trace_events=agg.n("trace_events"), batches_issued=agg.n("batches_issued"),
+        sync_batches=agg.n("sync_batches"), large_batches=agg.n("large_batches"),
+        workload_flushes=agg.n("workload_level0_tables"), workload_compactions=agg.n("workload_compactions"),
+        workload_reused_logs=agg.n("workload_reused_logs"),
+        crash_points=agg.n("crash_points"), crash_points_nested=agg.n("crash_points_nested"),
+        traces_explored_exhaustively=agg.n("traces_explored_exhaustively"),
+        traces_thinned=agg.n("crash_points_thinned"),
+        images_recovered=agg.n("images"), images_deduplicated=agg.n("images_deduplicated"),
+        images_by_kind={k: agg.n("images_" + k) for k in kinds},
+        images_nested_or_chained=agg.n("images_nested"),
+        nested_recoveries_explored=agg.n("nested_recoveries_explored"),
+        chain_links_explored=agg.n("chain_links_explored"),
+        recoveries_ok=agg.n("recoveries_ok"), second_opens=agg.n("second_opens"), followups=agg.n("followups"),
+        keys_compared=agg.n("keys_compared"),
+        images_with_two_logs=agg.n("images_with_two_logs"), images_with_dbtmp=agg.n("images_with_dbtmp"),
+        images_with_torn_manifest_tail=agg.n("images_with_torn_manifest_tail"),
+        current_checked=agg.n("current_checked"),
+        manifests_replayed_independently=agg.n("manifests_replayed_independently"),
+        leak_checks_after_recovery=agg.n("leak_checks_after_recovery"),
+        distinct_crashpoint_classes=agg.d("crashpoint_class"), distinct_recovered_sets=agg.d("recovered_sets"))
+
+
+CRASH_ASSUME = ["crash model exactly as stated in C02: per file a prefix >= its last fsync; directory operations in "
+                "issue order, at least up to the last fsync of any file or directory; O_TRUNC = new object",
+                "single foreground writer in this engine (group commit is exercised by the scheduler engine)"]
+
+
+@register("C02")
+def c02(ctx):
+    """Synced writes survive power loss at any instant (crash explorer, all image kinds)."""
+    if ctx.replay:
+        return do_replay(ctx)
+    if ctx.quick:
+        jobs = crash_jobs(ctx, "c02", 16, 120, 0, 1, 0)
+    else:
+        jobs = crash_jobs(ctx, "c02", 96, 300, 0, 2, 20)
+    agg = Agg().add(runner.run_jobs(jobs))
+    return runner.finish(
+        "C02", "fault_enumeration", ctx.tier, ctx.seed, ctx.t0, agg,
+        rule="crash after EVERY state-changing event of each recorded I/O trace x image kinds {max, min, dir-ahead, "
+             "data-ahead, torn(1, n/2, n-1, random), random x2}; each image materialised and recovered by the real "
+             "ldb_open; required set R(p) = sync-acked batches + batches of unlinked logs; non-trivial+distinct = "
+             "distinct images (by content descriptor hash) with R non-empty and unsynced bytes or directory ops withheld",
+        evaluations=agg.n("images"), distinct_nontrivial=agg.d("c02_image"), extras=crash_extras(agg),
+        exhaustive=(agg.n("crash_points_thinned") == 0),
+        floors=dict(images=(agg.n("images"), 2000), nontrivial=(agg.d("c02_image"), 500),
+                    torn=(agg.n("torn_images"), 100), sync_batches=(agg.n("sync_batches"), 50),
+                    flushes=(agg.n("workload_level0_tables"), 10)),
+        assumptions=CRASH_ASSUME)
+
+
+@register("C03")
+def c03(ctx):
+    """A process crash loses nothing acknowledged (byte-exact images at every kill point, nested, chained)."""
+    if ctx.replay:
+        return do_replay(ctx)
+    if ctx.quick:
+        jobs = crash_jobs(ctx, "c03", 32, 120, 0, 2, 12)
+    else:
+        jobs = crash_jobs(ctx, "c03", 160, 400, 0, 3, 40)
+    agg = Agg().add(runner.run_jobs(jobs))
+    return runner.finish(
+        "C03", "fault_enumeration", ctx.tier, ctx.seed, ctx.t0, agg,
+        rule="kill after EVERY state-changing event: byte-exact image recovered by the real ldb_open; S must be exactly "
+             "the acknowledged batches (+ possibly the one in flight), scan == fold(S), gets agree; sampled kill points "
+             "are nested (kill inside the recovery) or chained (recover, run more acknowledged writes, kill again); "
+             "distinct = distinct byte-exact images",
+        evaluations=agg.n("max_images"), distinct_nontrivial=agg.d("c03_image"), extras=crash_extras(agg),
+        exhaustive=(agg.n("crash_points_thinned") == 0),
+        floors=dict(images=(agg.n("max_images"), 2000), chains=(agg.n("chain_links_explored"), 10),
+                    nested=(agg.n("nested_recoveries_explored"), 10), two_logs=(agg.n("images_with_two_logs"), 50)),
+        assumptions=CRASH_ASSUME)
+
+
+@register("C05")
+def c05(ctx):
+    """Recovery always succeeds and yields a coherent, writable database (all images + follow-up + nested)."""
+    if ctx.replay:
+        return do_replay(ctx)
+    if ctx.quick:
+        jobs = crash_jobs(ctx, "c05", 16, 60, 0, 2, 6)
+    else:
+        jobs = crash_jobs(ctx, "c05", 80, 250, 0, 3, 30)
+    agg = Agg().add(runner.run_jobs(jobs))
+    return runner.finish(
+        "C05", "fault_enumeration", ctx.tier, ctx.seed, ctx.t0, agg,
+        rule="every image of C02/C03 with recovery-time paranoid_checks x reuse_logs drawn independently: open must "
+             "succeed; S within issued, per-log-segment prefix, scan == fold(S); on a 1-in-3 sample plus all non-write "
+             "events: second open unchanged, no orphans, follow-up workload (overwrites, deletes, flush, compaction) "
+             "persists across reopen; nested/chained kill points; distinct = distinct images",
+        evaluations=agg.n("images"), distinct_nontrivial=agg.d("c05_image"), extras=crash_extras(agg),
+        exhaustive=(agg.n("crash_points_thinned") == 0),
+        floors=dict(images=(agg.n("images"), 2000), followups=(agg.n("followups"), 300),
+                    second_opens=(agg.n("second_opens"), 300), dbtmp=(agg.n("images_with_dbtmp"), 10)),
+        assumptions=CRASH_ASSUME)
